@@ -34,6 +34,7 @@ FUNCTIONS = [
     "pyxel.configuration.configuration:to_observation",
     "pyxel.configuration.configuration:to_readout",
     "pyxel.configuration.configuration:to_exposure_outputs", "pyxel.configuration.configuration:to_observation_outputs",
+    "pyxel.evaluator:eval_range", "pyxel.observation.parameter_values:ParameterValues.__init__", "pyxel.exposure.readout:Readout.__init__",
     "pyxel.configuration.configuration:Configuration.__post_init__",
     "pyxel.pipelines.processor:Processor.set",
 ]
